@@ -1,6 +1,7 @@
 SPECIFICATION Spec
 CONSTANTS
   Tier = "quick"
+  EnvDefects = {}
 INVARIANT Inv_Membership
 INVARIANT Inv_CostMinusFee
 INVARIANT Inv_EffectiveBounded
@@ -9,4 +10,5 @@ INVARIANT Inv_EffectiveByClass
 INVARIANT Inv_EffectiveTip
 INVARIANT Inv_Validate
 INVARIANT Inv_ChainId
+INVARIANT Inv_RecordedHashOfAccepted
 CHECK_DEADLOCK FALSE
